@@ -12,7 +12,7 @@
 #define XP_MAXPATH   256
 #define XP_MAXVIOL   64
 #define XP_MAXSAMPLE 12
-#define XP_OUTCOMES  (1u << 16)
+#define XP_OUTCOMES  (1u << 21)
 
 typedef struct xp_viol {
 	char sig[160];          /* signature: identifies the class of failing input/history */
